@@ -26,14 +26,11 @@ Definition rule_valid (c : cstyle) : bool :=
       else false
   end.
 
-(* "range: auto" is the list ['auto'] in the dictionary; a list mixing auto with bounds is not a valid value
-   of the descriptor and counts as not specified *)
+(* "range: auto" is the list ['auto'] in the dictionary (a list mixing auto with bounds is not valid CSS; the
+   validator lets it through and it is read as auto) *)
 Definition norm_range (r : option crange) : option crange :=
   match r with
-  | Some (RList l) =>
-      if existsb (fun i => match i with RItemAuto => true | _ => false end) l
-      then (match l with [RItemAuto] => Some RAuto | _ => None end)
-      else r
+  | Some (RList l) => if has_auto_item l then Some RAuto else r
   | _ => r
   end.
 Definition norm_style (c : cstyle) : cstyle :=
